@@ -41,6 +41,7 @@ from numpy import (
 from numpy.linalg import norm
 from numpy.typing import NDArray
 from pyimpspec.data import DataSet
+from pyimpspec.exceptions import DRTError
 from pyimpspec.analysis.utility import (
     _calculate_residuals,
     _calculate_pseudo_chisqr,
@@ -478,6 +479,10 @@ def calculate_drt_tr_nnls(
         if len(f) < 1:
             raise ValueError(
                 f"There are no unmasked data points in the '{data.get_label()}' data set parsed from '{data.get_path()}'"
+            )
+        elif len(f) < 2:
+            raise DRTError(
+                f"Expected at least two unmasked data points instead of {len(f)=}"
             )
 
         Z_exp: ComplexImpedances = data.get_impedances()
